@@ -51,11 +51,21 @@ func impl(in hv.Val) hv.Val {
 			if a(1)%4 == 3 {
 				h[":scheme"] = []string{"https"}
 			}
-			if a(3) >= 0 {
+			switch {
+			case a(3) >= 0:
 				h["Content-Length"] = []string{strconv.FormatInt(a(3), 10)}
+			case a(3) == -2:
+				h["Content-Length"] = []string{"12x"}
+			case a(3) < -2:
+				h["Content-Length"] = []string{"-5"}
 			}
-			if a(4) != 0 {
+			switch a(4) {
+			case 1:
 				delete(h, ":path")
+			case 2:
+				h[":method"] = []string{"HEAD"}
+			case 3:
+				h[":scheme"] = []string{"ftp"}
 			}
 			f := &spdy.SynStreamFrame{StreamId: spdy.StreamId(uint32(a(1))), Priority: uint8(a(1) % 8), Headers: h}
 			if a(2) != 0 {
@@ -158,8 +168,15 @@ func gen(r *hv.Rng, i int, tier string) (string, hv.Val) {
 			if r.Chance(1, 3) {
 				cl = pickI(r, []int{0, 1, 100, 1000, 65536, 70000})
 			}
-			bad := r.Chance(1, 15)
-			evs = append(evs, hv.L{hv.I(1), hv.I(id), hv.Bool(fin), hv.I(cl), hv.Bool(bad)})
+			if r.Chance(1, 25) {
+				cl = pickI(r, []int{-2, -3})
+			}
+			badk := 0
+			if r.Chance(1, 12) {
+				badk = r.Range(1, 3)
+			}
+			bad := badk == 1 || badk == 3 || (badk == 2 && !fin) || (cl < -1 && !fin)
+			evs = append(evs, hv.L{hv.I(1), hv.I(id), hv.Bool(fin), hv.I(cl), hv.I(badk)})
 			if id%2 == 1 && id >= next {
 				next = id + 2
 				if !bad {
@@ -284,6 +301,9 @@ var scenarios = []scenario{
 	sc("sc-out-settings-grow", 200, ev(6, 10), ev(1, 1, 1, -1, 0), ev(7, 1, 1000, 1), ev(6, 2000), ev(9, 1)),
 	sc("sc-wu-overflow", 200, ev(1, 1, 0, -1, 0), ev(3, 1, 2147483647), ev(3, 0, 2147483647)),
 	sc("sc-wu-sign", 200, ev(1, 1, 1, -1, 0), ev(3, 1, 4294967295), ev(7, 1, 65536, 0)),
+	sc("sc-settings-overflow", 200, ev(1, 1, 0, -1, 0), ev(3, 1, 2147418111), ev(6, 65537), ev(9, 1)),
+	sc("sc-head-with-body", 200, ev(1, 1, 0, -1, 2), ev(1, 3, 1, -1, 2), ev(7, 3, 10, 1)),
+	sc("sc-bad-content-length", 200, ev(1, 1, 0, -2, 0), ev(1, 3, 0, -3, 0), ev(1, 5, 1, -2, 0), ev(2, 5, 1, 0)),
 	sc("sc-goaway-mutes", 200, ev(1, 1, 0, -1, 0), ev(1, 2, 0, -1, 0), ev(2, 9, 10, 0), ev(9, 1)),
 }
 
